@@ -180,6 +180,7 @@ fn enumerate(_tier: Tier, idx: u32, of: u32, cx: &mut Cx) -> CaseResult {
         ("many-hunks", crate::probes::many_hunks_tree(10_012)),
         ("big-blocks", crate::probes::big_blocks_tree()),
         ("huge-blocks", crate::probes::huge_block_tree()),
+        ("odd-block-size", crate::probes::odd_block_size_tree()),
         ("huge-file", crate::probes::huge_file_tree()),
         ("big-hunk", crate::probes::big_hunk_tree()),
         // more entries than one index hunk takes with the default options (100 000)
